@@ -27,7 +27,7 @@ Step(e) ==
   CASE e.act = "edit"    -> EnvEdit(e.f, e.c)
     [] e.act = "rmcache" -> EnvRmCache
     [] e.act = "tear"    -> EnvTear
-    [] e.act = "invoke"  -> Observe(ToObs(e)) /\ fs' = NodeRec(e.dst).fs
+    [] e.act = "invoke"  -> fs' = NodeRec(e.dst).fs /\ Observe(ToObs(e))
     [] e.act = "reset"   -> Forget /\ fs' = NodeRec(e.dst).fs       \* start of another replayed history
 
 TNext == \E i \in DOMAIN NodeRec(node).out :
